@@ -24,4 +24,9 @@ CHECKS = {
         "note": "hashlib SHA digests and calendar.timegm are external (parameters of the model; timegm is compared with a days-from-civil formula).",
         "design_ref": "DESIGN.md §5 C13",
     },
+    "C16": {
+        "text": "Theorems: the _records/_source consistency invariant (keys unique; every live key has exactly one record token) is established by loading any text and preserved by every operation (set hash/password, delete, delete realm, check password with any context behaviour, failed operations included), hence holds after every history; the export writes (k,v) iff k currently maps to v and writes every user at most once; edits only append tokens (untouched lines keep place and order); a rendered record line parses back to the same record for separator-free names and plain hashes; refused names change nothing; dictionary semantics of set/delete/check. Correspondence: explicit-state exploration of all op sequences up to a bound and random sequences on the real HtpasswdFile/HtdigestFile (text/bytes args, two encodings, autosave and save/load on a temp dir), comparing every return value and to_string() with the compiled model and re-reading the export with an independent reader.",
+        "note": "verify_and_update / htdigest.verify enter as parameters (their answers are recorded from the real context). mtime granularity is the OS's. Whole-file re-parse of the export is proved line-wise (record lines) and checked by the independent reader on every explored history.",
+        "design_ref": "DESIGN.md §5 C16",
+    },
 }
